@@ -53,6 +53,8 @@ def _ensure():
     _MON.register_callback(_TOOL, _E.PY_START, _on_start)
     _MON.register_callback(_TOOL, _E.PY_RETURN, _on_return)
     _MON.register_callback(_TOOL, _E.PY_UNWIND, _on_unwind)
+    # PY_UNWIND is not a local event in CPython 3.12: it is enabled globally and filtered by code object in _on_unwind
+    _MON.set_events(_TOOL, _E.PY_UNWIND)
     _active = True
 
 
@@ -70,7 +72,6 @@ def hook(func, on_start=None, on_return=None, on_unwind=None):
         ev |= _E.PY_RETURN
     if on_unwind is not None:
         _unwind_cb[code] = on_unwind
-        ev |= _E.PY_UNWIND
     _MON.set_local_events(_TOOL, code, ev)
     counts.setdefault(code.co_qualname, 0)
     return code
